@@ -336,7 +336,18 @@ class Interp:
             stub = self.stubs[sym]
             return ExtFunc(lambda *a, **k: stub(self, ev, e, list(a), k), sym)
         # module-level constants of the unit: literals and compiled regular expressions over literals
-        g = ev.fn.unit.globals.get(e.id)
+        got = self._global_value(ev.fn.unit, e.id)
+        if got is NotImplemented and sym is None:
+            # a module-level table imported from another module of the package (from .annotations import excludes)
+            target = ev.fn.unit.imports.get(e.id)
+            if target:
+                mod, _, attr = target.rpartition(".")
+                if mod in self.prog.units and attr in self.prog.units[mod].globals:
+                    got = self._global_value(self.prog.units[mod], attr)
+        return got
+
+    def _global_value(self, unit, name: str):
+        g = unit.globals.get(name)
         if g:
             v = g[-1]
             if isinstance(v, ast.Constant):
@@ -344,7 +355,7 @@ class Interp:
             if isinstance(v, (ast.List, ast.Tuple, ast.Dict, ast.Set)):
                 # one object per module-level name for the lifetime of this interpreter (as in the running module):
                 # code that hands such an object out by reference shares it between its results
-                key = (ev.fn.unit.modname, e.id)
+                key = (unit.modname, name)
                 if key in self.module_consts:
                     return self.module_consts[key]
                 try:
@@ -357,14 +368,14 @@ class Interp:
 
                 return _re.compile(*[a.value for a in v.args])
             if isinstance(v, ast.Call) and not v.args and not v.keywords:
-                csym = self.prog.resolve(ev.fn.unit, norm(v.func))
+                csym = self.prog.resolve(unit, norm(v.func))
                 if isinstance(csym, ClassInfo) and csym.name == "Configuration":
                     return self.config
             # a module-level name that is computed (keywords = list(kwlist); keywords.remove(...); a regex compiled
             # from it): evaluate the module's top-level statements once, in order
-            env = self._module_env(ev.fn.unit)
-            if e.id in env:
-                return env[e.id]
+            env = self._module_env(unit)
+            if name in env:
+                return env[name]
         return NotImplemented
 
     def _module_env(self, unit) -> Dict[str, Any]:
@@ -701,6 +712,9 @@ class Interp:
                 except AttributeError:
                     raise Unknown(f"method {f.attr} of {type(recv).__name__} is not modelled")
                 args, kwargs = self.args_of(ev, c)
+                if getattr(target, "_takes_callbacks", False):
+                    # a stand-in method that calls back into evaluated code (DictList.query(lambda r: ...))
+                    args = [(lambda *a_, _a=a, **k_: self.call_value(_a, list(a_), dict(k_), ev, c)) if isinstance(a, (FuncRef, PartialRef, Closure, LocalFunc)) else a for a in args]
                 return self._native_call(target, args, kwargs, c)
             for t, allowed in SAFE_METHODS.items():
                 if isinstance(recv, t) and f.attr in allowed:
